@@ -206,6 +206,9 @@ def _inline(it):
         d = _verb_delim(s)
         return r"\verb%s%s%s%s" % ("*" if it.get("star") else "", d, s, d)
     if t == "fn":
+        if it.get("split"):
+            # the split form: mark here, text given separately
+            return r"\footnotemark\footnotetext{%s}" % tex_escape(it["leaf"]["s"])
         return r"\footnote{%s}" % tex_escape(it["leaf"]["s"])
     if t == "fnc":
         # a footnote whose text is the same wherever it occurs (no marker word): equal footnotes
@@ -711,6 +714,8 @@ def doc_strategy(leaf=None, title_leaf=None, max_units=8, max_blocks=3, classes=
             return {"t": "fnc"}
         if t == "verb":
             return {"t": t, "leaf": draw(leaf()), "star": draw(st.integers(0, 3)) == 0}
+        if t == "fn":
+            return {"t": t, "leaf": draw(leaf()), "split": draw(st.integers(0, 3)) == 0}
         if t == "idx" and sorted_index:
             return {"t": t, "leaf": draw(leaf()), "sort": True}
         if t == "idx" and mixed_index and draw(st.booleans()):
